@@ -135,7 +135,7 @@ def grep_forbidden(files):
     return hits
 
 
-FACTS = {"C03": ["Formats", "Dispatch"], "C04": ["Formats"], "C05": ["Formats"], "C18": ["Formats", "Reads", "State"], "C19": ["State"], "C20": ["Formats"],
+FACTS = {"C03": ["Formats", "Dispatch"], "C04": ["Formats"], "C05": ["Formats"], "C18": ["Formats", "Reads", "State"], "C19": ["State"], "C15": ["State"], "C16": ["State"], "C17": ["State"], "C20": ["Formats", "State"],
          "C09": ["Ranges", "State"], "C08": ["Safety"], "C06": ["Literals", "Dispatch"], "C07": ["Literals", "Dispatch"],
          "C01": ["Dispatch"], "C10": ["Dispatch"], "C11": ["Dispatch"], "C12": ["Dispatch"], "C13": ["Dispatch"], "C14": ["Dispatch"]}
 
@@ -191,6 +191,7 @@ def gen_facts():
         "def cliOptions : List (String × String × String) := " + sites(f.get("cliOptions")),
         "def goStatements : List (String × String × String) := " + sites(f.get("goStatements")),
         "def structFields : List (String × String × String) := " + sites(sorted(f.get("structFields") or [], key=lambda x: (x["file"], x["func"], x["what"]))),
+        "def toolState : List (String × String × String) := " + sites(f.get("toolState")),
         "def directiveSeq : List (String × String × String) := " + sites(sorted(f.get("directiveSeq") or [], key=lambda x: (x["file"], x["func"]))),
         "end Bkl.Facts", ""])
     path = os.path.join(LEAN, "Generated", "Facts.lean")
